@@ -54,6 +54,10 @@ type Config struct {
 	NodeLocal []string `json:"node_local"`
 	// MapOnly: packages that only get T4 (map order), nothing else.
 	MapOnly []string `json:"map_only"`
+	// NativeMaps: "file.go:Recv.Func" functions whose map ranges stay native (no T4): loops whose iteration order
+	// cannot reach any observable result (counting, clearing a cache) and that a flood can drive to large sizes,
+	// where the sorted copy of the keys made for every instrumented range would dominate time and allocation.
+	NativeMaps []string `json:"native_maps"`
 }
 
 type site struct {
@@ -149,6 +153,7 @@ func main() {
 				full:      !mapOnly[p.PkgPath],
 				simos:     isIn(cfg.SimOS, rel),
 				simldb:    isIn(cfg.SimLDB, rel),
+				nativeMap: nativeFuncsOf(cfg.NativeMaps, rel),
 				nodeLocal: nodeLocal,
 			}
 			changed := in.run()
@@ -239,6 +244,7 @@ type instr struct {
 	full      bool
 	simos     bool
 	simldb    bool
+	nativeMap map[string]bool // functions ("Recv.Func") of this file whose map ranges stay native
 	nodeLocal map[string]bool
 
 	changed    bool
@@ -675,7 +681,44 @@ func isBlank(e ast.Expr) bool {
 }
 
 // T4
+// nativeFuncsOf selects the "file.go:Recv.Func" entries of one file.
+func nativeFuncsOf(entries []string, rel string) map[string]bool {
+	out := map[string]bool{}
+	for _, e := range entries {
+		if i := strings.LastIndex(e, ":"); i > 0 && filepath.ToSlash(e[:i]) == filepath.ToSlash(rel) {
+			out[e[i+1:]] = true
+		}
+	}
+	return out
+}
+
+// enclosingFunc names the function declaration that contains pos: "Recv.Func" or "Func".
+func (in *instr) enclosingFunc(pos token.Pos) string {
+	for _, d := range in.file.Decls {
+		fd, ok := d.(*ast.FuncDecl)
+		if !ok || pos < fd.Pos() || pos > fd.End() {
+			continue
+		}
+		name := fd.Name.Name
+		if fd.Recv != nil && len(fd.Recv.List) == 1 {
+			t := fd.Recv.List[0].Type
+			if st, ok := t.(*ast.StarExpr); ok {
+				t = st.X
+			}
+			if id, ok := t.(*ast.Ident); ok {
+				name = id.Name + "." + name
+			}
+		}
+		return name
+	}
+	return ""
+}
+
 func (in *instr) rewriteRange(r *ast.RangeStmt) ast.Stmt {
+	if len(in.nativeMap) > 0 && in.nativeMap[in.enclosingFunc(r.Pos())] {
+		in.note(r.Pos(), "map range left native (native_maps)")
+		return nil
+	}
 	t := in.pkg.TypesInfo.TypeOf(r.X)
 	if t == nil {
 		return nil
